@@ -92,12 +92,16 @@ def run(scn, stats):
             labels.add("rejected-while-active")
         r.scn = dict(scn, choices=ch[k:], controls=[])
         r.flags["finish"] = 1
-        r.run(stop=lambda rr: bool(flow.late_arrivals))
+        # busy: the rerun is requested as soon as the workflow is failed, while other actions are still in flight
+        busy = bool(scn.get("busy"))
+        r.run(stop=lambda rr: bool(flow.late_arrivals) or (busy and drv.status() == "failed"))
         if flow.late_arrivals:
             stats.excluded["R1"] += 1
             return
-        if not r.at_rest():
+        if not r.at_rest() and not (busy and drv.status() == "failed"):
             return
+        if drv.inflight and drv.status() == "failed":
+            labels.add("rerun-with-actions-in-flight")
         # a request for an execution that does not exist
         before = common.jd(drv.c.serialize())
         rec = r.step({"op": "rerun", "tasks": [["nosuch_task", 0, False]] if scn["bogus"] % 2 else [[sorted(ir["tasks"])[0], 77, False]]})
@@ -173,6 +177,13 @@ def run(scn, stats):
             drv.observers.append(quiesce_check)
             quiesce_check(drv, None)
             try:
+                if busy and scn["early"] % 2 == 0:
+                    # actions that were still in flight report before the provider polls again, i.e. while
+                    # the workflow is still resuming and the re-executed tasks have not started
+                    for a in [list(x) for x in drv.inflight][: 1 + scn["early"] % 3]:
+                        s_, r_ = r.outcome(a)
+                        r.step({"op": "done", "a": a, "status": s_, "result": r_})
+                        labels.add("report-while-resuming")
                 r.finish(stop=lambda rr_: bool(flow.late_arrivals))
             finally:
                 drv.observers.remove(quiesce_check)
@@ -213,6 +224,9 @@ def run(scn, stats):
                 labels.add("parallel-work-left")
             if any(i is not None for (t, i) in reran):
                 labels.add("with-items-rerun")
+        if rounds and drv.status() == "succeeded" and flow.unhandled and not flow.late_arrivals:
+            # a task failure that no transition handles was reported after the rerun had been accepted
+            raise Violation("succeeded-with-unhandled-failure-after-rerun", dict(info, unhandled=[list(x) for x in flow.unhandled], history=common.history_summary(r)[-30:]))
     except provider.KnownTrigger as kt:
         stats.excluded[kt.fid] += 1
         return
@@ -300,7 +314,7 @@ def strategy(tier):
                 k += 1
                 if f:
                     oc["%s#%d" % (name, i)] = [[["failed", "timeout", "abandoned"][f - 1], 500]]
-        return dict(s, outcomes=oc, variant=v, early=e, bogus=b)
+        return dict(s, outcomes=oc, variant=v, early=e, bogus=b, busy=int(b in (1, 4, 7)))
 
     return st.builds(
         build,
